@@ -119,7 +119,7 @@ func cmdDev(cfg Config, fnFilter string, dump bool, budget int) int {
 			if ob.result.Ms > ms[ob.Name] {
 				ms[ob.Name] = ob.result.Ms
 			}
-			if ob.status != "unsat" && dump {
+			if (ob.status != "unsat" || os.Getenv("GOCV_DUMPALL") == "1") && dump {
 				q := rep.exec.buildQuery(ob.node)
 				if os.Getenv("GOCV_SLICED") == "1" {
 					q = rep.exec.buildQueryOpt(ob.node, true, true)
